@@ -110,7 +110,6 @@ def judge_cell(cell, col, cls, enumerated=False):
             if inside or margin < 1e-3 * L + refgeo.edge_tol(8, res) * L:
                 pole = True
     lons1 = [p[0] for p in corners]
-    crosses = (not pole) and (max(lons1) > 180.0 or min(lons1) < -180.0 or max(abs(x) for x in lons1) > 179.0 and (max(lons1) - min(lons1)) < 180 and (max(lons1) > 180 or min(lons1) < -180))
     crosses = (not pole) and (max(lons1) > 180.0 or min(lons1) < -180.0)
     geo_done = {}
     ncases = nnt = 0
